@@ -72,6 +72,9 @@ def step (t : Forest) (ts : List String) : Forest × List String :=
   | "find" :: ws => (t, [match find t (sortDedup (nats ws)) with | some f => s!"find {f}" | none => "find none"])
   | "star" :: ws => (t, [s!"star {showSimplices (CofProto.star (sortDedup (nats ws)) t)}"])
   | ["order"] => (t, [s!"order {joinSp ((filtrationOrder t).map fun (w, f) => s!"{showWord w}:{f}")}"])
+  | ["orderinf", k] =>
+    let kept := (filtrationOrder t).filter fun (_, f) => decide (f < intD k)
+    (t, [if kept.isEmpty then "orderinf none" else s!"orderinf {joinSp (kept.map fun (w, f) => s!"{showWord w}:{f}")}"])
   | _ => (t, ["bad-op"])
 
 /-! ### several objects (C15): three slots, the operations above act on the selected one; copies, moves, swaps,
